@@ -98,12 +98,6 @@ def parseTime (tok : String) : Option Nat := if tok.startsWith "@" then (tok.dro
 
 def optNat (s : String) : Option (Option Nat) := if s == "-" then some none else s.toNat?.map some
 
-/-- split a final name into (node name, digest) like Express does -/
-def splitDigest (final : Name) : Name × Option Bytes :=
-  match final.getLast? with
-  | some last => if last.typ = tImplicitDigest then (final.dropLast, some last.val) else (final, none)
-  | none => (final, none)
-
 def nested (a b : Name) : Bool := a.isPrefixOf b || b.isPrefixOf a
 
 /-- SPEC: the timeouts reported before the op (pre) -/
@@ -194,7 +188,7 @@ def stepC20 (d : DSt) (op : String) (got : String) : StepResult DSt :=
           let (m2, o) := stepM d.pinned m1 (.express final cbp life)
           match o with
           | .expressed id =>
-            let (node, dig) := splitDigest final
+            let (dig, node) := splitDigest final
             let spInts := if gotRes == "ok" then
                 sp1.ints ++ [{ label := label, i := ⟨node, final, cbp, dig, t, life.getD defaultLife⟩ }]
               else sp1.ints
